@@ -114,7 +114,11 @@ def main(inp, outp):
                 if m["kind"] == "imp":
                     mans.append(ImpulsiveMan(d, VECS[m["v"] - 1]))
                 else:
-                    mans.append(ContinuousMan(d, timedelta(seconds=m["dur"]), accel=VECS[m["v"] - 1] * 1e-2))
+                    # the same burn described by its start, its middle or its end (date_pos), in turn
+                    pos = ("start", "median", "stop")[(len(mans) + len(method)) % 3]
+                    dur = timedelta(seconds=m["dur"])
+                    anchor = {"start": d, "median": d + dur / 2, "stop": d + dur}[pos]
+                    mans.append(ContinuousMan(anchor, dur, accel=VECS[m["v"] - 1] * 1e-2, date_pos=pos))
             orb.maneuvers = mans
             data = {"timeline": tl, "method": method, "how": "KeplerNum(step=H s, bodies=[], method); orbit.maneuvers = [...]; propagate(epoch + N*H s)"}
             try:
